@@ -48,11 +48,12 @@ Why(ev) ==
   ELSE IF ev.ver_outlen # 0 THEN <<"verification wrote output">>
   ELSE IF ev.ver_ret # ev.dec_ret THEN <<"verification and decryption disagree", ev.ver_ret, ev.dec_ret>>
   ELSE IF ev.dec_ret = 0 /\ ev.D # <<>> THEN <<"a failing decryption wrote output bytes", Len(ev.D)>>
+  ELSE IF ev.cls = "retag" THEN <<"ok">>      \* re-tagged with the key: outside the authenticity oracle; only the verify<=>decrypt, output and input conditions above apply
   ELSE IF ev.dec_ret = 1 /\ ~IdealAccept(ev) THEN <<"accepted although not authentic (or wrong key)">>
   ELSE IF ev.dec_ret = 1 /\ ev.D # ev.oP THEN <<"accepted, but the delivered plaintext differs from what was encrypted", Len(ev.D), Len(ev.oP)>>
   ELSE IF ev.dec_ret = 1 /\ Len(ev.D) > Len(ev.C) - F!TextMark(ev.T) THEN <<"more plaintext than the body holds">>
   ELSE IF ev.dec_ret = 0 /\ ev.has_orig = 1 /\ ev.C = ev.oC /\ ev.key = ev.oKey THEN <<"the authentic, completely written file was rejected">>
-  ELSE IF Full /\ ((F!Verify(ev.C, ev.key) = 0) # (ev.ver_ret = 1)) THEN <<"verdict differs from the executable specification of verify", F!Verify(ev.C, ev.key)>>
+  ELSE IF Full /\ ((F!Verify(ev.C, ev.key, ev.T) = 0) # (ev.ver_ret = 1)) THEN <<"verdict differs from the executable specification of verify", F!Verify(ev.C, ev.key, ev.T)>>
   ELSE <<"ok">>
 
 Init == l = 1 /\ nbad = 0
